@@ -82,6 +82,13 @@ fn gen_case(c: &mut Chooser) -> Case {
     files.insert("src/dup/one/frag.graphql".into(), "fragment Near on User {\n  id\n}\n".into());
     files.insert("src/dup/two/entry.graphql".into(), "#import Deep from \"./frag.graphql\"\nfragment Far on User {\n  name\n  ...Deep\n}\n".into());
     files.insert("src/dup/two/frag.graphql".into(), "fragment Deep on User {\n  age\n}\n".into());
+    // paths that differ only in letter case (file name, directory name) are different files
+    files.insert("src/case/main.graphql".into(), "#import CaseUpper from \"./Parts.graphql\"\n#import CaseDir from \"../Case/extra.graphql\"\nquery CaseMain {\n  me { ...CaseUpper ...CaseDir }\n}\n".into());
+    files.insert("src/Case/main.graphql".into(), "#import CaseLower from \"../case/parts.graphql\"\n#import CaseDir from \"../case/extra.graphql\"\nquery CaseMain2 {\n  me { ...CaseLower ...CaseDir }\n}\n".into());
+    files.insert("src/case/Parts.graphql".into(), "fragment CaseUpper on User {\n  id\n}\n".into());
+    files.insert("src/case/parts.graphql".into(), "fragment CaseLower on User {\n  name\n}\n".into());
+    files.insert("src/Case/extra.graphql".into(), "fragment CaseDir on User {\n  age\n}\n".into());
+    files.insert("src/case/extra.graphql".into(), "fragment CaseDir on User {\n  name\n  kind\n}\n".into());
     files.insert("src/leaf/c.graphql".into(), "fragment Leaf on User {\n  name\n}\nfragment LeafUnused on User { age }\n".into());
     match c.choose("unicode", 2) {
         0 => {}
